@@ -44,7 +44,7 @@ for c in ch:
         kf = [k for k in kf if not (k.get("signature") == sig and k.get("status") == "known")]
         print("removed (false alarm):", sig); continue
     if c["action"] == "fixed" and c.get("patch") in commits:
-        pid = ent[0]["property"] if ent else sig.split(":")[0]
+        pid = ent[0]["property"] if ent else sys.argv[1][:3]
         new = {"status": "fixed", "property": pid, "commit": commits[c["patch"]], "signature": sig,
                "line": "fixed: property=%s %s %s" % (pid, commits[c["patch"]], c["what"]), "replay": c["replay"]}
         assert os.path.exists(os.path.join(V, c["replay"])), c["replay"]
